@@ -395,7 +395,9 @@ func main() {
 	tmp := flag.String("tmp", "", "scratch directory")
 	maxNodes := flag.Int("maxnodes", 6000, "skip the Coq tree for files with more nodes (oracle still runs)")
 	variants := flag.Int("variants", 2, "extra walks per file from a non-initial context / with a panicking callback")
+	flag.BoolVar(&historyColdChild, "coldchild", false, "history mode, child process: per (rule set, file) the runs over each declaration alone, everything in reverse order")
 	flag.Parse()
+	historySeed = *seed
 	enc := json.NewEncoder(os.Stdout)
 	rng := rand.New(rand.NewSource(*seed))
 
